@@ -246,8 +246,11 @@ def ensure_go(drivers, tags="verif"):
             outp = os.path.join(bindir, d)
             if os.path.exists(outp):
                 continue
-            rc, out, _ = run([GO, "build", "-tags", tags, "-o", outp, "./" + d], cwd=HARNESS, env=GOENV,
-                             timeout=1200)
+            if d.endswith(".test"):   # synctest drivers are test binaries
+                cmd = [GO, "test", "-c", "-tags", tags, "-o", outp, "./" + d[:-5]]
+            else:
+                cmd = [GO, "build", "-tags", tags, "-o", outp, "./" + d]
+            rc, out, _ = run(cmd, cwd=HARNESS, env=GOENV, timeout=1200)
             if rc != 0:
                 return None, out
         # keep only the three most recent bin dirs
@@ -261,6 +264,18 @@ def ensure_go(drivers, tags="verif"):
 def work_dir(prop, tier, seed):
     d = os.path.join(CACHE, "work", "%s-%s-%s-%s" % (prop, tier, seed, repo_key()))
     os.makedirs(d, exist_ok=True)
+    return d
+
+
+def shared_dir(name, tier, seed):
+    """Work directory shared by the properties that project from one driver run; keyed by the
+    contents of /repo and of /verif, so results are never reused across different trees."""
+    d = os.path.join(CACHE, "shared", "%s-%s-%s-%s-%s" % (name, tier, seed, repo_key(), verif_key()))
+    os.makedirs(d, exist_ok=True)
+    root = os.path.join(CACHE, "shared")
+    ds = sorted((os.path.getmtime(os.path.join(root, x)), x) for x in os.listdir(root))
+    for _, x in ds[:-12]:
+        run("rm -rf %s" % os.path.join(root, x))
     return d
 
 
